@@ -449,8 +449,15 @@ def rank_discovery_vcs() -> List[core.VC]:
     kq = z3.Int("any_rank")
     reach: List[Any] = []
     mv = {"lines_in_file_1": files[0].length, "lines_in_file_2": files[1].length, "rank_1": rank[0], "rank_2": rank[1], "file_1_has_rank_text": some[0], "file_2_has_rank_text": some[1]}
+    infeasible = 0
     for n_, o in enumerate(rets):
         hy = ghost + [to_z3(c) for c in o.pc] + list(ex.facts)
+        probe = z3.Solver()
+        probe.set("timeout", 3000)
+        probe.add(*hy)
+        if probe.check() == z3.unsat:
+            infeasible += 1  # explored, but its path condition contradicts the loop invariants / ghost facts: nothing to prove
+            continue
         val = o.value
         if not (isinstance(val, tuple) and len(val) == 2 and isinstance(val[1], pyvc.SymMap)):
             raise pyvc.Unsupported("unexpected return value shape")
@@ -466,6 +473,7 @@ def rank_discovery_vcs() -> List[core.VC]:
     scen = {"both_files_carry_a_rank": [some[0], some[1]], "second_file_is_empty": [some[0], files[1].length == 0], "no_file_carries_a_rank": [z3.Not(some[0]), z3.Not(some[1]), files[0].length == 2]}
     for nm, extra in scen.items():
         vcs.append(core.VC(f"{PROP}.rank_discovery.guard.{nm}", ghost + list(ex.facts) + extra + [z3.Or(*reach)], z3.BoolVal(False), "vacuity", fq))
+    vcs.append(core.VC(f"{PROP}.rank_discovery.return_paths", [], z3.BoolVal(len(rets) > infeasible), "vc", fq, {}, note=f"{len(rets)} return paths explored, {infeasible} of them infeasible (skipped)"))
     modes_ok = all((w == "gzip.open") == ("b" in md) for w, _, md in opened) and len(opened) >= 2
     vcs.append(core.VC(f"{PROP}.rank_discovery.each_file_opened_once_per_branch", [], z3.BoolVal(modes_ok), "vc", fq, {}, note=f"opens: {opened}"))
     return vcs
